@@ -123,9 +123,14 @@ def validate_wiring(rep, relpath, funcs, extra_args='', alphabets=None):
     body = strip_doc(fn.body)
     num = fn.args.args[0].arg
     stmts = list(body)
-    # optional emptiness gate first
-    if stmts and isinstance(stmts[0], ast.If) and match_stmts('if not %s:\n    raise InvalidFormat()' % num, [stmts[0]]) is not None:
+    # optional emptiness gate first; any other leading `if <test on the number>: raise` is a gate that has to let every string
+    # over the alphabet through (checked below with the gates inside the try block)
+    pre_gates = []
+    while stmts and isinstance(stmts[0], ast.If) and not stmts[0].orelse and len(stmts[0].body) == 1 and isinstance(stmts[0].body[0], ast.Raise):
+        if match_stmts('if not %s:\n    raise InvalidFormat()' % num, [stmts[0]]) is None:
+            pre_gates.append(stmts[0])
         stmts = stmts[1:]
+    ncheck = 2 if 'calc_check_digits' in funcs else 1
     bad = AnalysisError('%s:%d validate() is not `checksum(number) == T` inside a catch-all followed by raise/return' % (relpath, fn.lineno))
     if len(stmts) != 3 or not isinstance(stmts[0], ast.Try):
         raise bad
@@ -139,6 +144,34 @@ def validate_wiring(rep, relpath, funcs, extra_args='', alphabets=None):
     if not (len(tbody) == 1 and isinstance(tbody[0], ast.Assign) and len(tbody[0].targets) == 1 and isinstance(tbody[0].targets[0], ast.Name)) \
             or tr.orelse or tr.finalbody:
         raise bad
+    # further conjuncts of the accepting condition (`valid = len(number) > 3 and checksum(number) == 1`) are gates as well: they
+    # must hold for every string of one payload character or more plus the check characters
+    if isinstance(tbody[0].value, ast.BoolOp) and isinstance(tbody[0].value.op, ast.And):
+        keep = [v for v in tbody[0].value.values if any(isinstance(c_, ast.Call) and src(c_.func) == 'checksum' for c_ in ast.walk(v))]
+        if len(keep) == 1:
+            for v in tbody[0].value.values:
+                if v is not keep[0]:
+                    neg = ast.copy_location(ast.If(test=ast.UnaryOp(op=ast.Not(), operand=v), body=[ast.Pass()], orelse=[]), v)
+                    pre_gates.append(ast.fix_missing_locations(neg))
+            tbody[0] = ast.copy_location(ast.Assign(targets=tbody[0].targets, value=keep[0]), tbody[0])
+            ast.fix_missing_locations(tbody[0])
+    default_alph = ['0123456789'] if not alphabets else []
+    for gt in pre_gates:
+        for alph in (alphabets or default_alph):
+            hit = None
+            for a in alph:
+                for probe in (a * (ncheck + 1), alph[0] * ncheck + a, a + alph[0] * ncheck, a * (ncheck + 2), alph[0] * 6 + a, a * 12):
+                    try:
+                        if ev(gt.test, {num: probe}):
+                            hit = hit or probe
+                    except Unsupported as e:
+                        raise AnalysisError('%s:%d the gate `%s` of validate() cannot be evaluated: %s' % (relpath, gt.lineno, src(gt.test), e))
+                    except Undecidable:
+                        pass
+            rep.check(hit is None, 'ALG.validate-gate', relpath, 'validate', '%s alphabet=%r' % (src(gt.test), alph), gt.lineno,
+                      'validate() rejects %r, a string over its alphabet %r with a payload and check characters, whatever its checksum (`%s`): '
+                      'for some payloads the character the generator gives is refused' % (hit, alph, src(gt.test)),
+                      what='gate `%s` passes every string over %r' % (src(gt.test), alph))
     for gt in gates:
         for alph in (alphabets or []):
             hit = None
